@@ -6,7 +6,8 @@ LEVEL = "model_checking"
 
 def run(ctx):
   return _shared.run_clauses(ctx, "C07.", lambda e: e['tag'] == 'reopen',
-                             "every 5th bundle of every history the document is reloaded into a fresh engine from the data the engine itself reports (metadata first, all tables with stored formula values, marshalled and decoded with main.table_data_from_db) and Calculate is applied: C07.quiet (no stored actions) and C07.same (same projected data)")
+                             "every 5th bundle of every history the document is reloaded into a fresh engine from the data the engine itself reports (metadata first, all tables with stored formula values, marshalled and decoded with main.table_data_from_db) and Calculate is applied: C07.quiet (no stored actions) and C07.same (same projected data)",
+                             corpora=_shared.BOTH)
 
 
 def replay(ctx, data):
